@@ -22,6 +22,12 @@ package momentum
 //@ rel[C18] "price" use[cond] aoS_pscale(highs, lows, second(highs), second(lows), lam, a.AwesomeOscillator.ShortSma.Period, a.AwesomeOscillator.LongSma.Period, len(snapshots), _)
 //@ rel[C18] "price" use forall i :: mul_cmp(lam, ao[i], 0)
 //@ rel[C18] "price" ensures len(second(result)) == len(result) && (forall k :: 0 <= k && k < len(result) ==> second(result)[k] == result[k])
+//@ rel[C18] "volume" param mu real
+//@ rel[C18] "volume" assume mu > 0 && len(second(snapshots)) == len(snapshots) && (forall k :: 0 <= k && k < len(snapshots) ==> vscaled(second(snapshots)[k], snapshots[k], mu))
+//@ rel[C18] "volume" step forall i :: 0 <= i && i < len(snapshots) ==> second(highs)[i] == 1 * highs[i] && second(lows)[i] == 1 * lows[i]
+//@ rel[C18] "volume" use[cond] aoS_pscale(highs, lows, second(highs), second(lows), 1, a.AwesomeOscillator.ShortSma.Period, a.AwesomeOscillator.LongSma.Period, len(snapshots), _)
+//@ rel[C18] "volume" use forall i :: mul_cmp(1, ao[i], 0)
+//@ rel[C18] "volume" ensures len(second(result)) == len(result) && (forall k :: 0 <= k && k < len(result) ==> second(result)[k] == result[k])
 
 //@ func RsiStrategy.Compute
 //@ requires r.Rsi.Rma.Period >= 1 && consumed(snapshots) == 0
@@ -39,6 +45,10 @@ package momentum
 //@ rel[C18] "price" assume lam > 0 && len(second(snapshots)) == len(snapshots) && (forall k :: 0 <= k && k < len(snapshots) ==> pscaled(second(snapshots)[k], snapshots[k], lam))
 //@ rel[C18] "price" use[cond] rsiS_scale(closings, second(closings), lam, r.Rsi.Rma.Period, _)
 //@ rel[C18] "price" ensures len(second(result)) == len(result) && (forall k :: 0 <= k && k < len(result) && (k >= r.Rsi.Rma.Period ==> rmaS(lossS(closings), r.Rsi.Rma.Period, k - r.Rsi.Rma.Period) != 0) ==> second(result)[k] == result[k])
+//@ rel[C18] "volume" param mu real
+//@ rel[C18] "volume" assume mu > 0 && len(second(snapshots)) == len(snapshots) && (forall k :: 0 <= k && k < len(snapshots) ==> vscaled(second(snapshots)[k], snapshots[k], mu))
+//@ rel[C18] "volume" use[cond] rsiS_scale(closings, second(closings), 1, r.Rsi.Rma.Period, _)
+//@ rel[C18] "volume" ensures len(second(result)) == len(result) && (forall k :: 0 <= k && k < len(result) && (k >= r.Rsi.Rma.Period ==> rmaS(lossS(closings), r.Rsi.Rma.Period, k - r.Rsi.Rma.Period) != 0) ==> second(result)[k] == result[k])
 
 //@ func StochasticRsiStrategy.Compute
 //@ requires s.StochasticRsi.Rsi.Rma.Period >= 1 && s.StochasticRsi.Min.Period >= 1 && s.StochasticRsi.Max.Period == s.StochasticRsi.Min.Period && consumed(snapshots) == 0
@@ -58,6 +68,12 @@ package momentum
 //@ rel[C18] "price" step forall i :: 0 <= i && i < len(snapshots) ==> second(closings)[i] == lam * closings[i]
 //@ rel[C18] "price" use[cond] stochRsiS_pscale(closings, second(closings), lam, s.StochasticRsi.Rsi.Rma.Period, s.StochasticRsi.Min.Period, len(snapshots), _)
 //@ rel[C18] "price" ensures len(second(result)) == len(result) && (forall k :: 0 <= k && k < len(result) ==> second(result)[k] == result[k])
+//@ rel[C18] "volume" param mu real
+//@ rel[C18] "volume" assume mu > 0 && len(second(snapshots)) == len(snapshots) && (forall k :: 0 <= k && k < len(snapshots) ==> vscaled(second(snapshots)[k], snapshots[k], mu))
+//@ rel[C18] "volume" assume forall j :: 0 <= j ==> rmaS(lossS(closings), s.StochasticRsi.Rsi.Rma.Period, j) != 0
+//@ rel[C18] "volume" step forall i :: 0 <= i && i < len(snapshots) ==> second(closings)[i] == 1 * closings[i]
+//@ rel[C18] "volume" use[cond] stochRsiS_pscale(closings, second(closings), 1, s.StochasticRsi.Rsi.Rma.Period, s.StochasticRsi.Min.Period, len(snapshots), _)
+//@ rel[C18] "volume" ensures len(second(result)) == len(result) && (forall k :: 0 <= k && k < len(result) ==> second(result)[k] == result[k])
 
 //@ func TripleRsiStrategy.Compute
 //@ requires t.Rsi.Rma.Period >= 1 && t.Sma.Period >= 1 && t.Sma.IdlePeriod() >= t.Rsi.IdlePeriod() && t.DownDays >= 1 && consumed(snapshots) == 0
